@@ -64,16 +64,31 @@ func ZZ_C13_EveryRouteProtected() {
 	}
 	vx.Assert("an enabled service registers at least one route", known == 0 || vx.GinRoutes() > 0)
 	vx.Config("oauth.tokenInvalid", true)
+	kind := vx.Choice("token.kind", 4) // one kind of bad token per path, tried on every route
 	for i := 0; i < vx.GinRoutes(); i++ {
 		path := vx.GinRoutePath(i)
 		vx.Assert("route lies under a protected service prefix",
 			strings.HasPrefix(path, factory.ConvergedChargingResUriPrefix+"/") ||
 				strings.HasPrefix(path, factory.OfflineOnlyChargingResUriPrefix+"/") ||
 				strings.HasPrefix(path, factory.SpendingLimitControlResUriPrefix+"/"))
-		c := &gin.Context{Request: &http.Request{Header: http.Header{"Authorization": []string{"Bearer " + vx.String("token", 2)}}}}
+		// tokens: header absent, empty, not a bearer token, bearer token that does not verify
+		hdr := http.Header{}
+		switch kind {
+		case 0:
+		case 1:
+			hdr["Authorization"] = []string{""}
+		case 2:
+			hdr["Authorization"] = []string{vx.String("garbage", 3)}
+		default:
+			hdr["Authorization"] = []string{"Bearer " + vx.String("token", 2)}
+		}
+		c := &gin.Context{Request: &http.Request{Header: hdr}}
 		calls := vx.VerifyCalls()
 		ran := vx.GinServe(i, c)
-		vx.Assert("the token was checked", vx.VerifyCalls() == calls+1)
+		if kind == 3 {
+			// (an absent or malformed header may be rejected without verification)
+			vx.Assert("a bearer token was verified", vx.VerifyCalls() == calls+1)
+		}
 		vx.Assert("unauthenticated request answered 401", vx.HTTPStatus(c) == 401)
 		vx.Assert("no handler after the authorisation check ran", ran < vx.GinChainLen(i) && vx.HTTPWrites(c) == 1)
 	}
